@@ -1,6 +1,8 @@
 (* C08 - executable model of the chunk filter code (no proofs in this file).
 
-   Transcribed from the REPAIRED tree (notes/fixes/c08-*.patch applied):
+   Transcribed from the repaired tree (/repo commits cfaf3f5 zlib container, f3a83f8 message parse,
+   c414fcd Fletcher-32 verification, d7e9c97 empty shuffle chunk, b6934a2 zero element size;
+   patches kept in notes/fixes/c08-*.patch):
      internal/writer/filter_shuffle.go      ShuffleFilter.Apply / Remove
      internal/writer/filter_fletcher32.go   Fletcher32Filter.Apply / Remove (calculateFletcher32 = core.Fletcher32)
      internal/writer/filter_lzf.go          lzfCompress, hashLZF, appendLiteral, appendBackref, lzfDecompress
